@@ -103,6 +103,8 @@ struct Op { OpK k; int slot; size_t size; int box; };
 struct Script { std::vector<std::vector<Op>> threads; std::vector<Op> setup; int nslots = 8; };
 
 struct Blk { uintptr_t p = 0; size_t req = 0, size = 0; int owner = -1; };
+// C01 quantifies over interleaved histories too: when this harness runs for C01, the block-validity oracles report under C01
+static const char *P01() { return wanted_prop() == "C01" ? "C01" : "C05"; }
 
 template<bool Aligned, class Mx = VMutex>
 struct MtHarness {
@@ -116,7 +118,7 @@ struct MtHarness {
 	Blk boxblk[4];
 	std::string log;
 	MtHarness(Script s, size_t skew_) : sc(std::move(s)), skew(skew_) {}
-	const char *prop() { return "C05"; }
+	const char *prop() { return P01(); }
 	Pool &pool() { return *reinterpret_cast<Pool *>(pool_store); }
 	int nthreads() { return (int)sc.threads.size(); }
 	static unsigned char pat(int owner, uintptr_t a) { return (unsigned char)(0x40 + owner * 37 + (a - (uintptr_t)arena) * 11); }
@@ -134,15 +136,15 @@ struct MtHarness {
 	void check_block(uintptr_t p, size_t req, int who) {
 		size_t want = req ? req : 1;
 		size_t gs = pool().get_size((void *)p);
-		if(gs < want) vs_fail("C05", "mt:too-small", "block smaller than requested");
+		if(gs < want) vs_fail(P01(), "mt:too-small", "block smaller than requested");
 		bool inside = false;
 		{ std::lock_guard<std::mutex> g(W.mu); for(auto &r : W.regions) if(p >= r.base && p + gs <= r.base + r.len) inside = true; }
-		if(!inside) vs_fail("C05", "mt:outside-mapped-memory", "block is not inside memory currently mapped by the pool");
+		if(!inside) vs_fail(P01(), "mt:outside-mapped-memory", "block is not inside memory currently mapped by the pool");
 		size_t al = 8; while(al < want && al < 256) al <<= 1;
-		if(p % al) vs_fail("C05", "mt:misaligned", "block misaligned");
+		if(p % al) vs_fail(P01(), "mt:misaligned", "block misaligned");
 #if !VERIF_TSAN
 		for(auto &o : live) if(p < o.p + o.size && o.p < p + gs)
-			vs_fail("C05", "mt:block-handed-out-twice", "thread " + std::to_string(who) + " received a block that overlaps a block that is still live (owner " + std::to_string(o.owner) + ")");
+			vs_fail(P01(), "mt:block-handed-out-twice", "thread " + std::to_string(who) + " received a block that overlaps a block that is still live (owner " + std::to_string(o.owner) + ")");
 #endif
 	}
 	void fill(const Blk &b) { for(size_t i = 0; i < b.req; i++) ((unsigned char *)b.p)[i] = pat(b.owner, b.p + i); }
@@ -216,7 +218,7 @@ struct MtHarness {
 		for(auto &row : slots) for(auto &b : row) if(b.p) verify(b, "end");
 		// no two live blocks overlap
 		std::vector<Blk> all; for(auto &row : slots) for(auto &b : row) if(b.p) all.push_back(b);
-		for(size_t i = 0; i < all.size(); i++) for(size_t j = i + 1; j < all.size(); j++) if(all[i].p < all[j].p + all[j].size && all[j].p < all[i].p + all[i].size) throw Violation{"C05", "mt:overlap-at-end", "two live blocks overlap at the end of the execution"};
+		for(size_t i = 0; i < all.size(); i++) for(size_t j = i + 1; j < all.size(); j++) if(all[i].p < all[j].p + all[j].size && all[j].p < all[i].p + all[i].size) throw Violation{P01(), "mt:overlap-at-end", "two live blocks overlap at the end of the execution"};
 		size_t used_mid = pool().numUsedPages();
 		// free everything; the page counter must come back to "slabs only": every large region is returned
 		size_t nlarge = 0; for(auto &b : all) if(b.size > 1024) nlarge++;
@@ -262,6 +264,15 @@ static std::vector<Instance> instances(const std::string &tier) {
 		if(ticket) v.push_back(sched_instance<MtHarness<true, frg::ticket_spinlock>>(n, o, s, (size_t)0)); else v.push_back(sched_instance<MtHarness<true, frg::simple_spinlock>>(n, o, s, (size_t)0));
 	};
 	int B = th ? 4 : 3;
+	if(wanted_prop() == "C01") {
+		// C01 over interleaved histories: the scripts in which blocks of one slab are handed out and taken back concurrently
+		int b = th ? 3 : 2;
+		add("H2-last-object", b, mkscript({{A_(0, 1024)}, {A_(0, 1024)}, {F_(100)}}, {A_(0, 1024), A_(1, 1024), A_(2, 1024), F_(2)}));
+		add("H3-cross-thread-free", b, mkscript({{A_(0, 1024), S_(0, 0), A_(1, 1024), F_(1)}, {V_(0, 0), F_(0)}}));
+		add("H7-full-slab-refill", b, mkscript({{F_(100), A_(0, 1024)}, {F_(101), A_(1, 600)}}, {A_(0, 1024), A_(1, 1024), A_(2, 1024)}));
+		add("H11-free-vs-allocate-same-slab", th ? 4 : 3, mkscript({{F_(100)}, {A_(0, 1024), A_(1, 1024)}}, {A_(0, 1024), A_(1, 1024), F_(1)}));
+		return v;
+	}
 	// H1: two threads find the class empty and both map a slab
 	add("H1-both-map", B, mkscript({{A_(0, 1024), F_(0)}, {A_(0, 1024), F_(0)}}));
 	// H2: one free object left in a full slab; two allocators race for it while a third thread frees into the slab
@@ -276,13 +287,15 @@ static std::vector<Instance> instances(const std::string &tier) {
 	add("H6-both-map-unaligned", B, mkscript({{A_(0, 1024), F_(0)}, {A_(0, 1024), F_(0)}}), false, 256);
 	// H7: slab full -> two frees make it partial again while two allocations follow
 	add("H7-full-slab-refill", B, mkscript({{F_(100), A_(0, 1024)}, {F_(101), A_(1, 600)}}, {A_(0, 1024), A_(1, 1024), A_(2, 1024)}));
+	// H11: a free into a partial slab against two allocations from it (the freed block must not be linked in front of a block that is being handed out)
+	add("H11-free-vs-allocate-same-slab", B, mkscript({{F_(100)}, {A_(0, 1024), A_(1, 1024)}}, {A_(0, 1024), A_(1, 1024), F_(1)}));
 	// H10: four threads on one class (the property speaks of 2-8 threads); bound 1 keeps it small
 	add("H10-four-threads", th ? 2 : 1, mkscript({{A_(0, 1024), F_(0)}, {A_(0, 1024), F_(0)}, {A_(0, 1024), D_(0)}, {A_(0, 600), F_(0)}}));
 	// the pool over the library's own spinlocks (anchor spinlock.hpp): the lock words are scheduling points themselves, so the
 	// happens-before edge between successive holders is the spinlock's, not the scheduler's
 	add_spin("H1-both-map-ticket-spinlock", th ? 2 : 1, mkscript({{A_(0, 1024), F_(0)}, {A_(0, 1024), F_(0)}}), true);
 	add_spin("H3-cross-thread-free-ticket-spinlock", th ? 2 : 1, mkscript({{A_(0, 1024), S_(0, 0), A_(1, 1024), F_(1)}, {V_(0, 0), F_(0)}}), true);
-	add_spin("H1-both-map-simple-spinlock", th ? 2 : 1, mkscript({{A_(0, 1024), F_(0)}, {A_(0, 1024), F_(0)}}), false);
+	add_spin("H1-both-map-simple-spinlock", th ? 5 : 4, mkscript({{A_(0, 1024), F_(0)}, {A_(0, 1024), F_(0)}}), false);
 	if(th) {
 		add("H1-both-map-all", 1000, mkscript({{A_(0, 1024), F_(0)}, {A_(0, 1024), F_(0)}}));
 		add("H8-three-allocators", 2, mkscript({{A_(0, 1024), F_(0)}, {A_(0, 1024), F_(0)}, {A_(0, 1024), F_(0)}}));
